@@ -79,7 +79,9 @@ def generate(seed, tier):
             op.update({"r": rng.choice([1.0, 1, 0.5, rng.uniform(0.05, 1.0)]),
                        "T": rng.choice([300.0, 0, 77, rng.uniform(1, 400)]),
                        "R_load": rng.choice([50.0, 50, 1e3, rng.uniform(10, 1e4)]),
-                       "BWf": rng.uniform(0.03, 0.45), "BWabs": rng.choice([None, 0.5e9, 2e9, 5e9, 10e9]),
+                       "BWf": rng.choice([rng.uniform(0.03, 0.45), rng.uniform(0.45, 0.497), rng.uniform(0.004, 0.03)])
+                       if rng.random() < 0.3 else rng.uniform(0.03, 0.45),
+                       "BWabs": rng.choice([None, 0.5e9, 2e9, 5e9, 10e9]),
                        "iso": rng.random() < 0.3, "i_dark": rng.choice([10e-9, 0.0, 1e-6, 1e-12]),
                        "Fn": rng.choice([0, 0.0, 3.0, rng.uniform(0, 10)]),
                        "include": _case(rng.choice(INCLUDES), rng), "seed": rng.getrandbits(31),
@@ -90,7 +92,10 @@ def generate(seed, tier):
         elif k == "bad":
             ops.append({"op": "bad", "what": rng.choice(["r0", "r_neg", "r_big", "r_list", "r_str", "T_neg", "T_str",
                                                          "R_neg", "R_list", "inc_int", "inc_bad", "inc_none", "in_es",
-                                                         "in_arr"])})
+                                                         "in_arr", "inc_words", "inc_words", "inc_words"]),
+                        "w": rng.choice(["shot-ase", "thermal-ase", "only-ase", "all-all", "ase-shot-ase", "ase", "shot",
+                                         "thermal", "shot-thermal", "ase-thermal-shot", "only", "ASE-ALL", "all-only",
+                                         "ase_only", "ase only", " all", ""])})
         elif k == "reseed":
             ops.append({"op": "reseed", "s": rng.getrandbits(31)})
         elif k == "freeze":
@@ -412,6 +417,10 @@ class Bench:
 
         if (seams.buf_digest(x.signal), seams.buf_digest(x.noise)) != dig0:
             raise Violation("C09/len", f"{what}: PD modified its input", "mutate")
+        if not np.array_equal(np.asarray(y0.signal).real, s0) or not np.array_equal(
+                np.zeros(n) if y0.noise is None else np.asarray(y0.noise, dtype=float), n0):
+            raise Violation("C09/len", f"{what}: an earlier result changed while later calls were made (shared buffer)",
+                            "result-unstable")
         self.rec.ok_ops += 1
         fsd = int(np.floor(np.log10(fs)))
         bwf = bw / fs
@@ -458,6 +467,7 @@ class Bench:
             "R_neg": (dict(R_load=-50.0), ValueError), "R_list": (dict(R_load=[50]), TypeError),
             "inc_int": (dict(include_noise=3), TypeError), "inc_none": (dict(include_noise=None), TypeError),
             "inc_bad": (dict(include_noise="everything"), ValueError),
+            "inc_words": (dict(include_noise=op.get("w", "shot-ase")), ValueError),
         }
         try:
             if w == "in_es":
